@@ -10,8 +10,12 @@
    902 [sparam, sstate, [act...]] -> sstate'          spec run
    903 [cfg, st]                  -> [item...]        model output()
    904 [[sel item...], [current item] | []] -> [item...]   spec output
-   905 [multi, count, pos, [current idx] | [], [match idx...], [sel idx...]] -> [cursor_ok, sel_ok]  *)
-From Fzf Require Import Prelude Val EditSpec EditModel.
+   905 [multi, count, pos, [current idx] | [], [match idx...], [sel idx...]] -> [cursor_ok, sel_ok]
+   sessions with a changing --multi limit (xact = act | [41, k, n]: change-multi with k = 0 no argument,
+   k = 1 the number n, k = 2 an argument that is not a number):
+   906 [cfg, st, [xact...]]        -> [st', multi']     model session run (verr on a model error); multi' = t.multi afterwards
+   907 [sparam, sstate, [xact...]] -> [sstate', multi'] spec session run; multi' = the limit in force afterwards  *)
+From Fzf Require Import Prelude Val EditSpec EditModel EditMultiSpec EditMultiModel.
 Open Scope Z_scope.
 
 Definition as_item (v : val) : item := (as_int (arg v 0), as_str (arg v 1)).
@@ -65,6 +69,11 @@ Definition vsstate (s : sstate) : val :=
 
 Definition as_optz (v : val) : option Z := match as_list v with [] => None | x :: _ => Some (as_int x) end.
 
+Definition as_xact (v : val) : xact :=
+  if as_int (arg v 0) =? 41 then
+    XChangeMulti (let k := as_int (arg v 1) in if k =? 0 then CMNone else if k =? 1 then CMNum (as_int (arg v 2)) else CMBad)
+  else XA (as_act v).
+
 Definition dispatch_edit (op : Z) (a : val) : option val :=
   if op =? 901 then
     Some (match run (as_table (arg (arg a 0) 8)) (as_cfg (arg a 0)) (as_st (arg a 1)) (map as_act (as_list (arg a 2))) with
@@ -78,4 +87,10 @@ Definition dispatch_edit (op : Z) (a : val) : option val :=
   else if op =? 905 then
     Some (VL [vbool (obs_cursor_ok (as_int (arg a 1)) (as_int (arg a 2)) (as_optz (arg a 3)) (map as_int (as_list (arg a 4))));
               vbool (obs_sel_ok (as_int (arg a 0)) (map as_int (as_list (arg a 5))))])
+  else if op =? 906 then
+    Some (match xrun (as_table (arg (arg a 0) 8)) (as_cfg (arg a 0), as_st (arg a 1)) (map as_xact (as_list (arg a 2))) with
+          | Ok cs => VL [vst (snd cs); VI (c_multi (fst cs))] | Err _ => verr end)
+  else if op =? 907 then
+    Some (let ps := xsrun (spec_isw (arg a 0)) (as_sparams (arg a 0), as_sstate (arg a 1)) (map as_xact (as_list (arg a 2))) in
+          VL [vsstate (snd ps); VI (sp_multi (fst ps))])
   else None.
